@@ -40,12 +40,22 @@ func placedAttached(c *Ctx) {
 	if comp == nil {
 		return
 	}
+	// the set whose *absence* of the component's key lets components() emit it: membership facts
+	// at the append into the result (comma-ok lookups, bool sets, early `continue`s alike)
 	placedField := ""
 	ast.Inspect(comp.fd.Body, func(n ast.Node) bool {
-		if ifs, ok := n.(*ast.IfStmt); ok {
-			if _, ix := commaOkLookup(comp, ifs.Init); ix != nil && terminates(ifs.Body) {
-				if sel, ok := ix.X.(*ast.SelectorExpr); ok {
-					placedField = sel.Sel.Name
+		as, ok := n.(*ast.AssignStmt)
+		if !ok || len(as.Rhs) != 1 {
+			return true
+		}
+		if ce, isCall := as.Rhs[0].(*ast.CallExpr); isCall {
+			if id, isId := ce.Fun.(*ast.Ident); isId && id.Name == "append" {
+				for _, f := range membersAt(comp, as) {
+					if !f.present {
+						if i := strings.LastIndex(f.mexpr, "."); i >= 0 {
+							placedField = f.mexpr[i+1:]
+						}
+					}
 				}
 			}
 		}
@@ -92,9 +102,16 @@ func placedAttached(c *Ctx) {
 						}
 						rhs := types.ExprString(a2.Rhs[0])
 						lhs := types.ExprString(a2.Lhs[0])
-						// append(*…Components, *state.componentsDict[K])
-						if strings.Contains(rhs, "append(") && strings.Contains(lhs, "Components") && strings.Contains(rhs, "["+key+"]") {
-							attached = true
+						// append(*…Components, *state.componentsDict[K]) — the appended component may
+						// have been bound to a local by an earlier lookup `x, ok := dict[K]`
+						if ce, isCall := a2.Rhs[0].(*ast.CallExpr); isCall && strings.Contains(lhs, "Components") {
+							if id, isId := ce.Fun.(*ast.Ident); isId && id.Name == "append" {
+								for _, arg := range ce.Args[1:] {
+									if k := lookupKeyOf(d, arg); k != "" && normText(k) == normText(key) {
+										attached = true
+									}
+								}
+							}
 						}
 						// doc.Metadata.Component = s.nodeToComponent(X) with key == X.Id
 						if strings.HasSuffix(lhs, "Metadata.Component") && strings.HasSuffix(key, ".Id") && strings.Contains(rhs, "("+strings.TrimSuffix(key, ".Id")+")") {
@@ -443,4 +460,48 @@ func idAlphabet(c *Ctx) {
 		}
 		c.check(applied, R, "sbom.NewNodeIdentifier#escapes", c.P.Pos(d.fd.Pos()), "seeds are escaped with the pattern", "seeds are not passed through the escape pattern")
 	}
+}
+
+// lookupKeyOf: e is (a dereference of) M[K], or a local bound once to M[K] (plain or comma-ok);
+// returns the text of K.
+func lookupKeyOf(d *declInfo, e ast.Expr) string {
+	for {
+		switch x := e.(type) {
+		case *ast.ParenExpr:
+			e = x.X
+			continue
+		case *ast.StarExpr:
+			e = x.X
+			continue
+		case *ast.UnaryExpr:
+			e = x.X
+			continue
+		}
+		break
+	}
+	switch x := e.(type) {
+	case *ast.IndexExpr:
+		return types.ExprString(x.Index)
+	case *ast.Ident:
+		o := objOf(d.pkg, x)
+		if o == nil {
+			return ""
+		}
+		key, n := "", 0
+		ast.Inspect(d.fd.Body, func(m ast.Node) bool {
+			as, ok := m.(*ast.AssignStmt)
+			if !ok || len(as.Rhs) != 1 || len(as.Lhs) == 0 || objOf(d.pkg, as.Lhs[0]) != o {
+				return true
+			}
+			n++
+			if ix, isIx := as.Rhs[0].(*ast.IndexExpr); isIx {
+				key = types.ExprString(ix.Index)
+			}
+			return true
+		})
+		if n == 1 {
+			return key
+		}
+	}
+	return ""
 }
